@@ -93,6 +93,178 @@ class _Strip(ast.NodeTransformer):
     visit_ImportFrom = visit_Import
 
 
+def _assigned_names(stmts):
+    out = set()
+    for st in stmts:
+        for n in ast.walk(st):
+            if isinstance(n, ast.Name) and isinstance(n.ctx, ast.Store):
+                out.add(n.id)
+    return out
+
+
+def _carried(body, target_names):
+    """names that are loop-carried: augmented-assigned, or (possibly) read before their first assignment in
+    one pass over the body, following evaluation order"""
+    assigned = _assigned_names(body) - set(target_names)
+    carried = set()
+    done = set(target_names)
+
+    def reads(expr):
+        for n in ast.walk(expr):
+            if isinstance(n, ast.Name) and isinstance(n.ctx, ast.Load) and n.id in assigned and n.id not in done:
+                carried.add(n.id)
+
+    def stores(tgt):
+        for n in ast.walk(tgt):
+            if isinstance(n, ast.Name) and isinstance(n.ctx, ast.Store):
+                done.add(n.id)
+            elif isinstance(n, ast.Name) and isinstance(n.ctx, ast.Load):
+                reads(n)
+
+    def visit(stmts):
+        for st in stmts:
+            if isinstance(st, ast.Assign):
+                reads(st.value)
+                for t in st.targets:
+                    stores(t)
+            elif isinstance(st, ast.AugAssign):
+                reads(st.value)
+                if isinstance(st.target, ast.Name):
+                    carried.add(st.target.id)
+                else:
+                    reads(st.target)
+            elif isinstance(st, ast.AnnAssign):
+                if st.value is not None:
+                    reads(st.value)
+                stores(st.target)
+            elif isinstance(st, ast.For):
+                reads(st.iter)
+                stores(st.target)
+                visit(st.body)
+                visit(st.orelse)
+            elif isinstance(st, ast.While):
+                reads(st.test)
+                visit(st.body)
+                visit(st.orelse)
+            elif isinstance(st, ast.If):
+                reads(st.test)
+                before = set(done)
+                visit(st.body)
+                after_body = set(done)
+                done.clear()
+                done.update(before)
+                visit(st.orelse)
+                # a name counts as assigned after the if only when both branches assign it
+                both = after_body & set(done)
+                done.clear()
+                done.update(both | before)
+            elif isinstance(st, ast.With):
+                for it in st.items:
+                    reads(it.context_expr)
+                    if it.optional_vars is not None:
+                        stores(it.optional_vars)
+                visit(st.body)
+            elif isinstance(st, (ast.Expr, ast.Return)):
+                if st.value is not None:
+                    reads(st.value)
+            elif isinstance(st, (ast.Pass, ast.Break, ast.Continue)):
+                pass
+            else:
+                for n in ast.walk(st):
+                    if isinstance(n, ast.expr):
+                        reads(n)
+                        break
+                carried.update(_assigned_names([st]))
+    visit(body)
+    return sorted(carried)
+
+
+class LoopRewrite(ast.NodeTransformer):
+    """mechanical desugaring used for loop-nest summarisation (DESIGN 4.2):
+       for t in it: body         ->  for t in __pyvc_iter(it, (<loop-carried names>)): body
+       X[i] op= v                ->  __pyvc_augstore(X, i, 'op', v)
+       if c: A else: B  (inside a for body)  ->  guarded execution when c depends on a generic loop variable
+       a and b / a or b / not a  ->  __pyvc_and(lambda: a, lambda: b) ...: Python's short-circuit evaluation for concrete
+                                     operands, a symbolic conjunction (no path fork) otherwise"""
+
+    def __init__(self):
+        self.loop = 0
+        self.n = 0
+
+    def visit_FunctionDef(self, node):
+        old, self.loop = self.loop, 0
+        oldf, self.fn = getattr(self, "fn", None), node
+        self.generic_visit(node)
+        self.loop = old
+        self.fn = oldf
+        return node
+
+    def visit_For(self, node):
+        tn = {n.id for n in ast.walk(node.target) if isinstance(n, ast.Name)}
+        carried = _carried(node.body, tn)
+        self.loop += 1
+        self.generic_visit(node)
+        self.loop -= 1
+        node.iter = ast.Call(func=ast.Name(id="__pyvc_iter", ctx=ast.Load()),
+                             args=[node.iter, ast.Constant(value=tuple(carried))], keywords=[])
+        return node
+
+    def visit_AugAssign(self, node):
+        self.generic_visit(node)
+        if isinstance(node.target, ast.Subscript):
+            tgt = node.target
+            call = ast.Call(func=ast.Name(id="__pyvc_augstore", ctx=ast.Load()),
+                            args=[tgt.value, tgt.slice, ast.Constant(value=type(node.op).__name__), node.value], keywords=[])
+            return ast.copy_location(ast.Expr(value=call), node)
+        return node
+
+    def visit_BoolOp(self, node):
+        self.generic_visit(node)
+        fn = "__pyvc_and" if isinstance(node.op, ast.And) else "__pyvc_or"
+        lam = [ast.Lambda(args=ast.arguments(posonlyargs=[], args=[], kwonlyargs=[], kw_defaults=[], defaults=[]), body=v)
+               for v in node.values]
+        return ast.copy_location(ast.Call(func=ast.Name(id=fn, ctx=ast.Load()), args=lam, keywords=[]), node)
+
+    def visit_UnaryOp(self, node):
+        self.generic_visit(node)
+        if isinstance(node.op, ast.Not):
+            return ast.copy_location(ast.Call(func=ast.Name(id="__pyvc_not", ctx=ast.Load()), args=[node.operand], keywords=[]), node)
+        return node
+
+    def visit_If(self, node):
+        self.generic_visit(node)
+        if self.loop == 0:
+            return node
+        self.n += 1
+        g = "__pyvc_g%d" % self.n
+        unsafe = any(isinstance(n, (ast.Break, ast.Continue, ast.Return)) for st in node.body + node.orelse for n in ast.walk(st))
+        names = _assigned_names(node.body + node.orelse)
+        if names and getattr(self, "fn", None) is not None and not node.orelse:
+            # assignments under the guard are harmless when the names are never read outside the guarded block
+            inside = {id(n) for st in node.body for n in ast.walk(st)}
+            outside_reads = {n.id for n in ast.walk(self.fn) if isinstance(n, ast.Name) and isinstance(n.ctx, ast.Load)
+                             and id(n) not in inside}
+            names = names & outside_reads
+        names = sorted(n for n in names if not n.startswith("__pyvc_"))
+        cond = ast.Call(func=ast.Name(id="__pyvc_cond", ctx=ast.Load()),
+                        args=[node.test, ast.Constant(value=bool(unsafe)), ast.Constant(value=tuple(names))], keywords=[])
+        assign = ast.Assign(targets=[ast.Name(id=g, ctx=ast.Store())], value=cond)
+        gl = lambda: ast.Name(id=g, ctx=ast.Load())
+        is_t = ast.Compare(left=gl(), ops=[ast.Is()], comparators=[ast.Constant(value=True)])
+        is_f = ast.Compare(left=gl(), ops=[ast.Is()], comparators=[ast.Constant(value=False)])
+        guarded = [ast.With(items=[ast.withitem(context_expr=gl())], body=node.body)]
+        if node.orelse:
+            neg = ast.Call(func=ast.Attribute(value=gl(), attr="neg", ctx=ast.Load()), args=[], keywords=[])
+            guarded.append(ast.With(items=[ast.withitem(context_expr=neg)], body=node.orelse))
+        inner = ast.If(test=is_f, body=node.orelse or [ast.Pass()], orelse=guarded)
+        outer = ast.If(test=is_t, body=node.body, orelse=[inner])
+        return [ast.copy_location(assign, node), ast.copy_location(outer, node)]
+
+
+def loop_rewrite(tree):
+    return LoopRewrite().visit(tree)
+
+
 def load_module(rel, ns, transforms=(), only=None):
     """exec the real module AST (minus imports / numba decorators) in namespace ns.
     only: optional iterable of top-level names to keep (defs/classes/assignments)."""
